@@ -24,16 +24,17 @@ Mappings == { [x \in Ids |-> IF x = 0 THEN "i3" ELSE "good"], [x \in Ids |-> IF 
               [x \in Ids |-> "none"], [x \in {2} |-> "i7"],
               [x \in Ids |-> IF x = 0 THEN "f4" ELSE "big"] }      \* f4 = 4.0 (a float, not 4); big = 2^53 + 1 (exactly)
 Versions == {"v1", "v2"}
-AllForeignKinds == {"valid", "multi", "samefield", "empty", "garbage", "headeronly", "shortrow", "info"}
+AllForeignKinds == {"valid", "tabcsv", "multi", "samefield", "empty", "garbage", "headeronly", "shortrow", "info"}
 \* well-formed foreign files and what they contribute: "valid" has one value column; "multi" has two value
 \* columns with an EMPTY cell in each row (also in the first data row): cluster 0 has no fa, cluster 2 no fb;
 \* "samefield" is a foreign .csv carrying the field "quality" - the SAME name as a field the model saves - for
 \* clusters 0 and 4: it shows only while no saved mapping of that field has a row (a saved mapping replaces it
 \* entirely, it is not merged with it: *.csv files are read before *.tsv files)
-ForeignFields == {"foreignfield", "fa", "fb"}
-FFieldsOf(k) == IF k = "valid" THEN {"foreignfield"} ELSE IF k = "multi" THEN {"fa", "fb"}
+ForeignFields == {"foreignfield", "ftab", "fa", "fb"}
+\* "tabcsv" is a *.csv file whose columns are separated by TABS (the delimiter is found in the header, not the suffix)
+FFieldsOf(k) == IF k = "valid" THEN {"foreignfield"} ELSE IF k = "tabcsv" THEN {"ftab"} ELSE IF k = "multi" THEN {"fa", "fb"}
                 ELSE IF k = "samefield" THEN {"quality"} ELSE {}
-FRows(f) == IF f = "foreignfield" THEN {<<0, "i5">>, <<2, "i7">>} ELSE IF f = "fa" THEN {<<2, "i7">>}
+FRows(f) == IF f \in {"foreignfield", "ftab"} THEN {<<0, "i5">>, <<2, "i7">>} ELSE IF f = "fa" THEN {<<2, "i7">>}
             ELSE IF f = "fb" THEN {<<0, "i5">>} ELSE {<<0, "i5">>, <<4, "i7">>}
 NoModel == [open |-> FALSE]
 
